@@ -18,7 +18,7 @@ ClOf(vs, async, pv, cq) == [nodes |-> [i \in Node |-> NC(i, \E k \in DOMAIN vs :
 NoActors == [Tick |-> {}, Campaign |-> {}, Propose |-> {}, ProposeConfChange |-> {}, ReadIndex |-> {},
          Crash |-> {}, TransferLeader |-> {}, ForgetLeader |-> {}, ReportUnreachable |-> {}, ReportSnapshot |-> {}]
 NoBudget == [Tick |-> 0, Campaign |-> 0, Propose |-> 0, ProposeConfChange |-> 0, ReadIndex |-> 0, Crash |-> 0, Dup |-> 0, Drop |-> 0,
-         Snapshot |-> 0, Compact |-> 0, TransferLeader |-> 0, ForgetLeader |-> 0, ReportUnreachable |-> 0, ReportSnapshot |-> 0,
+         Snapshot |-> 0, Compact |-> 0, TransferLeader |-> 0, ForgetLeader |-> 0, ReportUnreachable |-> 0, ReportSnapshot |-> 0, Defer |-> 0,
          Term |-> 1, Index |-> 3, Net |-> 4]
 PszF == {3}
 NoCCsF == {}
